@@ -72,15 +72,18 @@ def malformed(ctx):
     for a, b in r.sample(small, min(len(small), ctx.scale(120, 3000))):
         ea, eb = gen.enc(a), gen.enc(b)
         ha, hb = gen.hexarg(ea), gen.hexarg(eb)
+        # a non-empty caller buffer now and then (@prefix): model and implementation both print the buffer as the call
+        # left it, on Ok and on Err
+        pre = lambda op: '@c0ffee' if op != 'array_overlap' and r.random() < 0.35 else ''
         for m in mutants(ctx, ea):
             h = gen.hexarg(m)
-            ctx.add('array_distinct %s' % h, kind='malformed')
+            ctx.add('array_distinct%s %s' % (pre('array_distinct'), h), kind='malformed')
             op = r.choice(['array_intersection', 'array_except', 'array_overlap'])
-            ctx.add('%s %s %s' % (op, h, hb), kind='malformed')
+            ctx.add('%s%s %s %s' % (op, pre(op), h, hb), kind='malformed')
         for m in mutants(ctx, eb):
             h = gen.hexarg(m)
             for op in r.sample(['array_intersection', 'array_except', 'array_overlap'], 2):
-                ctx.add('%s %s %s' % (op, ha, h), kind='malformed')
+                ctx.add('%s%s %s %s' % (op, pre(op), ha, h), kind='malformed')
         for _ in range(4):
             op = r.choice(['array_intersection', 'array_except', 'array_overlap'])
             ctx.add('%s %s %s' % (op, gen.hexarg(r.choice(mutants(ctx, ea, 6))), gen.hexarg(r.choice(mutants(ctx, eb, 6)))), kind='malformed')
@@ -96,6 +99,16 @@ def classify(ctx, c, io, mo):
 def judge(ctx):
     impl = ctx.impl
     again = []
+    # judged on the implementation's output alone (valid and corrupt inputs): an error return of a buffer-writing set
+    # function leaves the caller's buffer (empty, or the @prefix of the case) exactly as it was
+    for c in ctx.cases:
+        o = impl.get(c.id, 'missing')
+        name, _, pre = c.line.split(' ')[0].partition('@')
+        if o.startswith('err ') and name in ('array_distinct', 'array_intersection', 'array_except'):
+            f = o.split(' ')
+            ctx.count('error_returns_checked_for_buffer', name)
+            if len(f) < 3 or gen.unhexarg(f[2]) != bytes.fromhex(pre):
+                ctx.violate('an error return left bytes appended to (or changed) the buffer', case=c.line, observed=o[:300])
     for a, b, ids in ctx.trials:
         d, i, e, o = [impl.get(x, 'missing') for x in ids]
         case = [gen.vtext(a), gen.vtext(b)]
